@@ -402,6 +402,36 @@ func build(s *core.Shard, i int) *Case {
 		}
 	}
 
+	// ---- `environment` keys written without a value in included services: the included project's env
+	// file may be the only one to define them (both spellings of `environment` are generated)
+	if svcs := root.Sub["services"]; svcs != nil {
+		for _, name := range svcs.Keys {
+			n := owner[resRef{"services", name}]
+			if n == nil || n.id == 0 || envOf(n) == nil {
+				continue
+			}
+			ev := svcs.Sub[name].Sub["environment"]
+			if ev == nil {
+				continue
+			}
+			for _, kv := range ev.KVs {
+				if kv.V != nil || r.Intn(2) == 0 {
+					continue
+				}
+				if _, taken := topEnv[kv.K]; taken {
+					continue
+				}
+				if _, taken := envOf(n)[kv.K]; taken {
+					continue
+				}
+				envOf(n)[kv.K] = "included-value-of-" + kv.K
+				pastedOnly[kv.K] = "included-value-of-" + kv.K
+				c.Uses++
+				s.Cover("secret_config_variable", "service environment key without value, defined by the included project's env file")
+			}
+		}
+	}
+
 	// ---- relative paths: anchored at the included project directory ------------
 	tokenDir := map[string]string{}
 	for rr, n := range owner {
